@@ -31,8 +31,14 @@ ColDiffNaN(ce, x) == IF IsDiff(ce) THEN NaN ELSE x
 RowsAreItems == IsItemLike(DimR)
 ColsAreItems == IsItemLike(DimC)
 
+\* A difference's count is undefined in a response that carries valid counts
+CountR(tk, re, ce, st) ==
+  IF (IsDiff(re) \/ IsDiff(ce)) /\ HasY /\ ValidCounts THEN NaN
+  ELSE IF IsDiff(re) /\ IsDiff(ce) THEN NaN
+  ELSE R(Count(tk, re, ce, st))
+
 CountM(tk, RE, CE, st) ==
-  Mat(Len(RE), Len(CE), LAMBDA i, j : R(Count(tk, RE[i], CE[j], st)))
+  Mat(Len(RE), Len(CE), LAMBDA i, j : CountR(tk, RE[i], CE[j], st))
 
 \* per-cell bases; own-direction base of a difference is NaN
 RowBaseM(tk, RE, CE, st) ==
@@ -74,12 +80,43 @@ TableBaseRange(tk, st) ==
                  i \in 1..Len(BaseEls(DimR)), j \in 1..Len(BaseEls(DimC))}
   IN  Num1(<<R(Min(vals)), R(Max(vals))>>)
 
+\* --- proportions ---------------------------------------------------------
+IsDate(d) == Dims[d].date
+\* a difference "with several terms on either side"
+MultiTerm(e) == IsDiff(e) /\ (Cardinality(e.pos) > 1 \/ Cardinality(e.neg) > 1)
+OneMinusOne(e) == Cardinality(e.pos) = 1 /\ Cardinality(e.neg) = 1
+OnlyPos(d, e) == BaseEl(d, CHOOSE x \in e.pos : TRUE)
+OnlyNeg(d, e) == BaseEl(d, CHOOSE x \in e.neg : TRUE)
+
+PlainRowProp(tk, re, ce) == Div(R(Count(tk, re, ce, WS)), R(RowBase(tk, re, ce, WS)))
+PlainColProp(tk, re, ce) == Div(R(Count(tk, re, ce, WS)), R(ColBase(tk, re, ce, WS)))
+
+\* row proportion.  Own-direction difference (row difference): undefined, except
+\* that on a categorical-date rows dimension a one-minus-one difference is the
+\* difference of the two rows' percentages.  A several-term difference on a
+\* categorical-date dimension is undefined in every proportion.
 RowProp(tk, re, ce) ==
-  RowDiffNaN(re, Div(R(Count(tk, re, ce, WS)), R(RowBase(tk, re, ce, WS))))
+  IF IsDiff(re) /\ IsDiff(ce) THEN NaN
+  ELSE IF IsDiff(re) THEN
+       (IF IsDate(DimR) /\ ~IsIns(ce) /\ OneMinusOne(re)
+        THEN Sub(PlainRowProp(tk, OnlyPos(DimR, re), ce), PlainRowProp(tk, OnlyNeg(DimR, re), ce))
+        ELSE NaN)
+  ELSE IF IsDiff(ce) /\ IsDate(DimC) /\ ~IsIns(re) /\ ~OneMinusOne(ce) THEN NaN
+  ELSE IF (IsDiff(re) \/ IsDiff(ce)) /\ HasY /\ ValidCounts THEN NaN
+  ELSE PlainRowProp(tk, re, ce)
+
 ColProp(tk, re, ce) ==
-  ColDiffNaN(ce, Div(R(Count(tk, re, ce, WS)), R(ColBase(tk, re, ce, WS))))
+  IF IsDiff(re) /\ IsDiff(ce) THEN NaN
+  ELSE IF IsDiff(ce) THEN
+       (IF IsDate(DimC) /\ ~IsIns(re) /\ OneMinusOne(ce)
+        THEN Sub(PlainColProp(tk, re, OnlyPos(DimC, ce)), PlainColProp(tk, re, OnlyNeg(DimC, ce)))
+        ELSE NaN)
+  ELSE IF IsDiff(re) /\ IsDate(DimR) /\ ~IsIns(ce) /\ ~OneMinusOne(re) THEN NaN
+  ELSE IF (IsDiff(re) \/ IsDiff(ce)) /\ HasY /\ ValidCounts THEN NaN
+  ELSE PlainColProp(tk, re, ce)
+
 TableProp(tk, re, ce) ==
-  Div(R(Count(tk, re, ce, WS)), R(TableBase(tk, re, ce, WS)))
+  Div(CountR(tk, re, ce, WS), R(TableBase(tk, re, ce, WS)))
 
 RowPropM(tk, RE, CE)   == Mat(Len(RE), Len(CE), LAMBDA i, j : RowProp(tk, RE[i], CE[j]))
 ColPropM(tk, RE, CE)   == Mat(Len(RE), Len(CE), LAMBDA i, j : ColProp(tk, RE[i], CE[j]))
@@ -93,15 +130,17 @@ RowsMarginProp(tk, RE, CE) ==
   THEN Num2(Mat(Len(RE), Len(CE), LAMBDA i, j :
          Div(R(RowBase(tk, RE[i], CE[j], WS)), R(TableBase(tk, RE[i], CE[j], WS)))))
   ELSE Num1(Vec(Len(RE), LAMBDA i :
-         Div(R(RowBase(tk, RE[i], AnyEl(DimC), WS)),
-             R(TableBase(tk, RE[i], AnyEl(DimC), WS)))))
+         IF IsDiff(RE[i]) /\ HasY /\ ValidCounts THEN NaN
+         ELSE Div(R(RowBase(tk, RE[i], AnyEl(DimC), WS)),
+                  R(TableBase(tk, RE[i], AnyEl(DimC), WS)))))
 ColsMarginProp(tk, RE, CE) ==
   IF RowsAreItems
   THEN Num2(Mat(Len(RE), Len(CE), LAMBDA i, j :
          Div(R(ColBase(tk, RE[i], CE[j], WS)), R(TableBase(tk, RE[i], CE[j], WS)))))
   ELSE Num1(Vec(Len(CE), LAMBDA j :
-         Div(R(ColBase(tk, AnyEl(DimR), CE[j], WS)),
-             R(TableBase(tk, AnyEl(DimR), CE[j], WS)))))
+         IF IsDiff(CE[j]) /\ HasY /\ ValidCounts THEN NaN
+         ELSE Div(R(ColBase(tk, AnyEl(DimR), CE[j], WS)),
+                  R(TableBase(tk, AnyEl(DimR), CE[j], WS)))))
 
 \* minimum-base masks: TRUE exactly where the unweighted base is below the threshold
 \* (an undefined base -- own direction of a difference -- is never "below")
@@ -122,7 +161,8 @@ YWt(co, f(_, _)) ==
                      THEN IndProd(k.p, co, Md("sel", "sel"), 1) * f(k, YAt(k.p, co))
                      ELSE 0)
 MeanAt(co) == Div(R(YWt(co, LAMBDA k, y : k.w * y)), R(YWt(co, LAMBDA k, y : k.w)))
-SumAt(co)  == IF YWt(co, LAMBDA k, y : 1) = 0 THEN NaN ELSE R(YWt(co, LAMBDA k, y : k.w * y))
+SumAt(co)  == IF YWt(co, LAMBDA k, y : 1) = 0 /\ SumNaN THEN NaN
+              ELSE R(YWt(co, LAMBDA k, y : k.w * y))
 StdAt(co)  == Sub(Div(R(YWt(co, LAMBDA k, y : k.w * y * y)), R(YWt(co, LAMBDA k, y : k.w))),
                   Sq(MeanAt(co)))
 MedAt(co)  == Add(Mul(R(2), MeanAt(co)), One)
@@ -131,9 +171,22 @@ YStat(name, co) ==
   CASE name = "mean" -> MeanAt(co) [] name = "sum" -> SumAt(co)
     [] name = "stddev" -> StdAt(co) [] name = "median" -> MedAt(co)
 
+\* base elements an element is made of (itself for a base element)
+Parts(d, e) == IF e.item # 0 THEN {e} ELSE {BaseEl(d, p) : p \in e.pos}
+
+\* Sums add up over the addends of a subtotal (an unavailable addend makes the
+\* subtotal unavailable).  No property says what the sum of a difference is (the
+\* library reports NaN in a slice and the signed sum in a strand): left open.
+SumOver(tk, re, ce) ==
+  IF IsDiff(re) \/ IsDiff(ce) THEN AnyVal
+  ELSE FoldSet(LAMBDA c, acc : Add(SumAt(Co(tk, c[1], c[2])), acc), Zero,
+               Parts(DimR, re) \X (IF ND >= 2 /\ DimC # 0 THEN Parts(DimC, ce) ELSE {ce}))
+
 YStatM(name, tk, RE, CE) ==
   Mat(Len(RE), Len(CE), LAMBDA i, j :
-      IF IsIns(RE[i]) \/ IsIns(CE[j]) THEN NaN ELSE YStat(name, Co(tk, RE[i], CE[j])))
+      IF name = "sum" THEN SumOver(tk, RE[i], CE[j])
+      ELSE IF IsIns(RE[i]) \/ IsIns(CE[j]) THEN NaN
+      ELSE YStat(name, Co(tk, RE[i], CE[j])))
 
 (***************************************************************************)
 (* 1-D partition: rows only.  CE is ignored (pass << >>).                  *)
@@ -141,13 +194,20 @@ YStatM(name, tk, RE, CE) ==
 NoEl == [pos |-> {}, neg |-> {}, item |-> 0, ins |-> 0]
 
 SCount(tk, re, st) == Count(tk, re, NoEl, st)
-SCountV(tk, RE, st) == Vec(Len(RE), LAMBDA i : R(SCount(tk, RE[i], st)))
 SBaseV(tk, RE, st)  == Vec(Len(RE), LAMBDA i : R(TableBase(tk, RE[i], NoEl, st)))
-SPropV(tk, RE) ==
-  Vec(Len(RE), LAMBDA i :
-      Div(R(SCount(tk, RE[i], WS)), R(TableBase(tk, RE[i], NoEl, WS))))
+\* strand counts and proportions; a several-term difference on a categorical-date
+\* dimension has no proportion
+SCountR(tk, re, st) ==
+  IF IsDiff(re) /\ HasY /\ ValidCounts THEN NaN ELSE R(SCount(tk, re, st))
+SProp(tk, re) ==
+  IF IsDate(DimR) /\ IsDiff(re) /\ re.pos # {} /\ MultiTerm(re) THEN NaN
+  ELSE Div(SCountR(tk, re, WS), R(TableBase(tk, re, NoEl, WS)))
+SPropV(tk, RE) == Vec(Len(RE), LAMBDA i : SProp(tk, RE[i]))
+SCountV(tk, RE, st) == Vec(Len(RE), LAMBDA i : SCountR(tk, RE[i], st))
 SYStatV(name, tk, RE) ==
-  Vec(Len(RE), LAMBDA i : IF IsIns(RE[i]) THEN NaN ELSE YStat(name, Co(tk, RE[i], NoEl)))
+  Vec(Len(RE), LAMBDA i :
+      IF name = "sum" THEN SumOver(tk, RE[i], NoEl)
+      ELSE IF IsIns(RE[i]) THEN NaN ELSE YStat(name, Co(tk, RE[i], NoEl)))
 SMask(tk, RE, thr) ==
   Exact([i \in 1..Len(RE) |-> TableBase(tk, RE[i], NoEl, "n") < thr])
 SBaseRange(tk, st) ==
